@@ -312,8 +312,9 @@ def c16(tier_):
         cx = replay.Concrete(rng, apij)
         execs += replay.build_executions(edges, walks, cx, 'exc', sweep_every=40, rng=rng, sweep_after_fatal=0.25, apis=('cxx', 'c'))      # double-precision calls through the C symbol or the template, at random
         st += s; tr += t; uniq += nu
+    execs += gen.gen_unknown_handles('exc') + gen.gen_unknown_handles('exit')
     return run_trace_check('C16', tier_, execs, suite=True, relax=('live', 'memo'), level='model_checking',
-        rule='every transition of the bounded model in the exit() build (each fatal transition in its own process: exit status, diagnostics and the absence of any later effect are observed) and in the exception build (caught int, then sweeps, then the walk continues in the same process). distinct = distinct (call, arguments) shapes',
+        rule='unknown-handle spellings (empty, blank, other case, blank appended, cut short, 300 characters) selected in four registry states (never initialised, only the other precision, one handle, two handles) through the three interfaces in both builds; every transition of the bounded model in the exit() build (each fatal transition in its own process: exit status, diagnostics and the absence of any later effect are observed) and in the exception build (caught int, then sweeps, then the walk continues in the same process). distinct = distinct (call, arguments) shapes',
         assumptions=COMMON_ASSUME, mc=dict(states=st, transitions=tr, distinct_transitions_replayed=uniq, exhaustive=True),
         extra_cov=lambda ex: dict(fatal_events_observed=sum(1 for e in ex for ev in e.events if 'FATAL' in ev.get('tags', []))))
 
